@@ -185,7 +185,6 @@ def verify_function(src: Source, reg: Registry, contract: Contract, prefix: str,
                 raise Unsupported(f"contract names loop {o} but the function has {len(eng.loop_ordinals)} loops")
         eng.step_hooks = list(step_hooks or []) + list(getattr(contract, "step_hooks", []) or [])
         eng.T = getattr(reg, "T", None)
-        eng.trace_fields = tuple(getattr(contract, "trace_fields", ()))
         st, self_ref, args = setup_state(eng, contract, fi)
         eng.self_ref = self_ref
         frame = set()
@@ -204,7 +203,9 @@ def verify_function(src: Source, reg: Registry, contract: Contract, prefix: str,
                            function=contract.key, expect_sat=True)
         eng.obligations.append(cover)
         witness_obligations(eng, contract, st, self_ref, args)
+        eng.trace_fields = tuple(getattr(contract, "trace_fields", ()))   # heap-access events only for the code under verification
         exits = eng.exec_block(fi.node.body, st)
+        eng.trace_fields = ()
         for kind, s, v in exits:
             eng.paths += 1
             if kind == OK:
